@@ -80,6 +80,8 @@ fn check(c: &Case, ctx: &Ctx) -> Outcome {
             let mut bytes = names_file_text(&del_names[..del_names.len() - 1], 0).into_bytes();
             bytes.extend_from_slice(b"G\xf6teborg_7\n");
             std::fs::write(dir.join("names.txt"), bytes).unwrap();
+            args.push("-f".into());
+            args.push("names.txt".into());
         } else if c.names_file {
             std::fs::write(dir.join("names.txt"), names_file_text(&del_names, n + k)).unwrap();
             args.push("-f".into());
@@ -141,6 +143,7 @@ fn check(c: &Case, ctx: &Ctx) -> Outcome {
         Ok((rows_gone, nonadj)) => {
             let mut cl = vec![];
             if c.refusal == 1 { cl.push("refusal_unknown_name"); }
+            if c.names_file && c.refusal == 1 && (n + k) % 3 == 0 { cl.push("refusal_names_file_line_in_another_encoding"); }
             if c.refusal == 2 { cl.push("refusal_all_samples"); }
             if c.refusal == 0 {
                 if rows_gone { cl.push("rows_disappear"); }
